@@ -283,9 +283,9 @@ def execute(case: dict[str, Any]) -> Run:
         sch.patch(reg_cls, "get", get_probe)
         if lines:
             mw_cls = _sticky._StickyMiddleware
-            sch.trace_code(mw_cls.process_request, mw_cls._close_session, mw_cls.process_response,
-                           real_get, reg_cls.close, reg_cls.drain_expired, reg_cls.shutdown,
-                           _sticky._SessionResource.on_delete)
+            sch.trace_code(*S.members(mw_cls, "process_request", "_close_session", "process_response"),
+                           real_get, *S.members(reg_cls, "close", "drain_expired", "shutdown"),
+                           *S.members(_sticky._SessionResource, "on_delete"))
 
         server = RpcServer(_Proto, _Impl(world))
         app = make_wsgi_app(server, token_key=TOKEN_KEY, enable_sticky=True, sticky_default_ttl=300.0,
